@@ -10,6 +10,7 @@ mod polyfns;
 mod vecfns;
 mod schemefns;
 mod scan;
+mod judge;
 
 fn answer_scalar(f: scalar::ScalarFn, args: &[&str]) -> Option<String> {
     let xs: Option<Vec<i64>> = args.iter().map(|s| s.parse::<i64>().ok()).collect();
